@@ -27,9 +27,30 @@ FEATS = [
 ]
 
 
+from vf.flo import prog as P
+
+
+def gate_shared(rng, prog):
+    """the shared conditional aux gets an entry guard that opens later (`let me if .c1 == 1` in its first frame, the
+    driver sets .c1 at one of its later steps): while the guard is closed every attempt is refused -- under whichever
+    sibling frame the framer is -- and a refused attempt must leave the auxiliary free for the next frame that asks"""
+    h = prog["houses"][0]
+    aux = [fr for fr in h["framers"] if fr["name"] == "a0"][0]
+    aux["frames"][0]["stmts"].insert(0, {"v": "let", "needs": [P.cmp(".c1", "==", 1)]})
+    drv = [fr for fr in h["framers"] if fr["name"] == "drv"][0]
+    later = [f for f in drv["frames"][1:] if f["name"] != "dfin"] or drv["frames"][:1]
+    rng.choice(later)["stmts"].insert(0, {"v": "put", "data": {"value": 1}, "dst": ".c1", "ctx": None})
+
+
 def worker(ctx, job):
     import random
     from vf.flo import monitors
+    if job.get("sg"):
+        common.flo_worker(ctx, {"items": job["sg"]}, [dict(family="shared")],
+                          [monitors.suspend_monitor, monitors.bracket_monitor, monitors.outline_monitor], mutate=gate_shared,
+                          nontrivial=lambda d: d.get("cond_aux_later_or_never", 0) >= 1,
+                          sem_flags=("condaux_activated", "guard_refused", "condaux_guard_refused"))
+        ctx.hit("shared_condaux_with_an_entry_guard", len(job["sg"]))
     # a conditional aux whose condition is an update / change condition and whose entry guard opens later than the
     # condition first holds: "when its conditions hold and it is not running, it is entered" at the first evaluation at
     # which it can be entered -- the refused evaluations before that one must not use the update up (family and model
@@ -67,7 +88,9 @@ def run(ctx):
     n = ctx.pick(500, 30000)
     items = [(ctx.rng.randrange(1 << 30), i % gen.nfeats(FEATS, ctx)) for i in range(n)]
     gca = [ctx.rng.randrange(1 << 30) for _ in range(ctx.pick(160, 6000))]
-    ctx.shard([{"items": items[i::16], "gca": gca[i::16]} for i in range(16)], timeout=ctx.pick(300, 1500))
+    sg = [(ctx.rng.randrange(1 << 30), 0) for _ in range(ctx.pick(240, 8000))]
+    ctx.shard([{"items": items[i::16], "gca": gca[i::16], "sg": sg[i::16]} for i in range(16)], timeout=ctx.pick(300, 1500))
+    ctx.floor("shared_condaux_with_an_entry_guard", 100)
     for k, v in {"cond_aux_activations": 50, "cond_aux_immediate": 10, "cond_aux_later_or_never": 10, "cond_aux_completions": 10,
                  "main_exited_while_suspended": 10, "later_clauses_skipped": 10, "runs_while_aux_running": 100, "resumed_same_tick": 5,
                  "nested_lower_aux_suspended": 100, "nested_running_conditional_auxes": 300,
